@@ -851,6 +851,9 @@ FAMILIES = [
 ]
 
 TRUSTED = [
+    "translator harness/translate/py2coq.py + declared types (py2coq_targets.py RaftLogGen): consensus/log.py (Log.append/get/truncate_from/entries_after/"
+    "last_index/last_term/advance_commit) is regenerated on every run and proved to refine the model's log functions (C11/GenTie.v); Python list "
+    "indexing/slicing semantics are Base/PyLib.v py_index/py_slice; raft.py's handlers are NOT translated (model + correspondence)",
     "Coq 8.16.1 kernel (coqc, vm_compute for refutation witnesses and case evaluation); no native_compute",
     "axioms: none (every theorem of C11/Props.v is 'Closed under the global context')",
     "correspondence harness harness/props/c11.py (generators, observers, in-Coq comparison ok_net / ok_trace of C11/Model.v)",
@@ -858,7 +861,8 @@ TRUSTED = [
     "timers are outputs only (the cluster model lets a timeout or heartbeat fire at any moment)",
 ]
 
-COQ_FILES = ["C11/Model.v", "C11/NodeProofs.v", "C11/Election.v", "C11/Refute.v", "C11/LogProofs.v", "C11/LogMatching.v", "C11/Progress.v", "C11/Props.v"]
+COQ_FILES = ["C11/Model.v", "C11/NodeProofs.v", "C11/Election.v", "C11/Refute.v", "C11/LogProofs.v", "C11/LogMatching.v", "C11/Progress.v",
+         "Base/PyLib.v", "Gen/RaftLogGen.v", "C11/GenTie.v", "C11/Props.v"]
 
 
 # --------------------------------------------------------------------------- small-scope exhaustive exploration (search only)
@@ -950,7 +954,12 @@ class SmallShards:
 
 
 def run(ctx):
+    from props import pygen
+    ok, info = pygen.regenerate("RaftLogGen")       # consensus/log.py translated from $HS_REPO by py2coq
+    ctx.coverage["regenerated"] = info
     ctx.prove(COQ_FILES, allowed_axioms=(), trusted_base=TRUSTED)
+    if not ok and ctx.pending_obligation_violation:
+        ctx.pending_obligation_violation["translator"] = info.get("error")
     stats = []
     for fam, k, shard in zip(FAMILIES, [ctx.n(300, 2000), ctx.n(32, 160), ctx.n(12, 60), ctx.n(150, 1000)], [100, 8, 6, 75]):
         fam.parallel = not ctx.quick          # the quick tier's implementation runs take ~2 s in total
